@@ -824,3 +824,24 @@ Lemma store_failure_drops_chunk :
   chunks_pts 1 (chunks_of (r_outs r)) = [(2,2,1)] /\
   accepted_pts 1 ops (r_rets r) = [(1,1,5); (2,2,1)].
 Proof. vm_compute. repeat split. Qed.
+
+(* ---------- C20: the Flush barrier per data id, for any linearised history ---------- *)
+
+Lemma flush_barrier_per_id pol rev0 ops id :
+  let s := r_state (urun (uinit pol rev0) ops) in
+  let r := urun (uinit pol rev0) (ops ++ [Flush]) in
+  snd (ustep s Flush) = 0 ->
+  buf_pts id (u_buf (r_state r)) = [] /\
+  chunks_pts id (chunks_of (r_outs r)) = accepted_pts id (ops ++ [Flush]) (r_rets r).
+Proof.
+  intros s r Hret.
+  assert (Hc : u_closed s = false).
+  { destruct (u_closed s) eqn:E; [|reflexivity]. cbn [ustep] in Hret. rewrite E in Hret. discriminate. }
+  assert (Hb : u_buf (r_state r) = []).
+  { subst r. destruct (urun_snoc ops (uinit pol rev0) Flush) as (E & _ & _). cbn zeta in E. rewrite E.
+    now apply flush_barrier_step. }
+  split; [rewrite Hb; reflexivity|].
+  pose proof (conservation id (ops ++ [Flush]) (uinit pol rev0) (inv_init pol rev0)) as H.
+  cbn zeta in H. fold r in H. rewrite Hb in H. cbn in H. now rewrite app_nil_r in H.
+Qed.
+
